@@ -28,6 +28,9 @@ type tcase struct {
 	TzSecs  int             `json:"tz"`
 	Year    bool            `json:"year"`
 	Exp     json.RawMessage `json:"exp"`
+	// witness mode: literal source text and lines instead of an AST
+	Src      string   `json:"src"`
+	RawLines []string `json:"rawlines"`
 }
 
 type run struct {
@@ -88,6 +91,31 @@ func main() {
 		}
 		out := map[string]any{"seed": c.Seed}
 		var runs []run
+		if c.Src != "" {
+			for _, rl := range c.RawLines {
+				toks := [][]string{}
+				if rl != "" {
+					for _, t := range strings.Split(rl, " ") {
+						toks = append(toks, []string{t})
+					}
+				}
+				c.Lines = append(c.Lines, mlang.Line{Toks: toks, File: []string{"log"}})
+			}
+			for _, o := range []bool{true, false} {
+				name := fmt.Sprintf("w%d%v.mtail", c.Seed, o)
+				r := run{Mode: "src", Opt: o, Src: c.Src}
+				cc := mlang.Compile(name, c.Src, o)
+				r.Errors, r.Panic = cc.Errors, cc.Panic
+				if cc.Obj != nil && cc.Errors == "" && cc.Panic == "" {
+					r.Accepted = true
+					_, r.Lines = mlang.Run(name, cc.Obj, c.Lines, mlang.RunOpts{Loc: loc, CurrentYear: c.Year})
+				}
+				runs = append(runs, r)
+			}
+			out["runs"] = runs
+			vh.Out(out)
+			return nil
+		}
 		for _, mode := range strings.Split(*modes, ",") {
 			src, rerr := mlang.Render(&c.Prog, mlang.RenderOpts{FullParens: mode == "full", CommaIndex: c.Seed%2 == 0})
 			if rerr != nil {
